@@ -17,7 +17,7 @@
     explicit in [served_sound] (C06_resume_sound). *)
 From RsM Require Import Lib.MachInt Model.Acl Model.AclSpec Model.Im Model.ImSpec.
 From RsM Require Import Proofs.ImExpand Proofs.ImRun Proofs.ImSound Proofs.ImTimed
-  Proofs.ImTheorems Proofs.ImMonitor Proofs.ImResume.
+  Proofs.ImTheorems Proofs.ImMonitor Proofs.ImResume Proofs.ImChunked.
 Open Scope N_scope.
 
 (** ** Exactness, for every node, every access-control table, every
@@ -258,6 +258,46 @@ Theorem C06_model_satisfies_monitor :
 Proof. exact holds_model. Qed.
 Print Assumptions C06_model_satisfies_monitor.
 
+(** ** A write continued over several chunks: the timed gate (flag against
+    the one TimedRequest of the exchange, window against the clock at that
+    chunk) is applied to every chunk; a refused chunk ends the interaction. *)
+Theorem C06_chunked_exact :
+  forall (fuel max_paths : nat) (who : accessor) (nd : node) (fabs : list fabric)
+         (win : option N) (ff : bool) (chunks : list wchunk),
+  wf_node nd = true -> wf_fabrics fabs = true ->
+  (forall ch, In ch chunks -> (length (spec_outs nd fabs who (chunk_req win ff ch)) < fuel)%nat) ->
+  write_chunked fuel max_paths who (mkCfg nd fabs) [] win ff chunks
+  = spec_write_chunked max_paths who nd fabs win ff chunks.
+Proof. exact write_chunked_exact. Qed.
+Print Assumptions C06_chunked_exact.
+
+Theorem C06_chunked_timed_window :
+  forall (fuel max_paths : nat) (who : accessor) (c0 : config) (sw : list (nat * config))
+         (win : option N) (ff : bool) (chunks : list wchunk) (i : nat) (ch : wchunk)
+         (outs : list out) (log : list hcall),
+  nth_error chunks i = Some ch ->
+  nth_error (write_chunked fuel max_paths who c0 sw win ff chunks) i = Some (RespItems outs log) ->
+  ch_flag ch = is_some win /\ (ch_flag ch = true -> window_open win (ch_elapsed ch) = true).
+Proof. exact write_chunked_gate. Qed.
+Print Assumptions C06_chunked_timed_window.
+
+Theorem C06_chunked_stops :
+  forall (fuel max_paths : nat) (who : accessor) (c0 : config) (sw : list (nat * config))
+         (win : option N) (ff : bool) (chunks : list wchunk) (i : nat) (s : status),
+  nth_error (write_chunked fuel max_paths who c0 sw win ff chunks) i = Some (RespStatus s) ->
+  length (write_chunked fuel max_paths who c0 sw win ff chunks) = S i.
+Proof. exact write_chunked_stops. Qed.
+Print Assumptions C06_chunked_stops.
+
+Theorem C06_chunked_monitor_sound :
+  forall (max_paths : nat) (who : accessor) (nd : node) (fabs : list fabric)
+         (win : option N) (ff : bool) (chunks : list wchunk) (resps : list imresp),
+  wf_node nd = true -> wf_fabrics fabs = true ->
+  holds_chunked max_paths who (mkCfg nd fabs) [] win ff chunks resps = true ->
+  resps = spec_write_chunked max_paths who nd fabs win ff chunks.
+Proof. exact holds_chunked_sound. Qed.
+Print Assumptions C06_chunked_monitor_sound.
+
 (** ** Non-vacuity: the hypotheses are satisfiable and every kind of
     outcome occurs (evaluated inside Coq on the model). *)
 Definition ex_node : node :=
@@ -345,3 +385,18 @@ Proof.
   - intros nd [<-|[<-|[<-|[]]]]; (split; [vm_compute; reflexivity|]); intros e He;
       [exact He|right; exact He|right; exact He].
 Qed.
+
+(** chunked writes of the timed-only attribute 2: a continuation chunk cannot claim to be timed
+    when no TimedRequest opened the exchange, and is refused once the window has expired *)
+Example C06_ex_chunked_flag :
+  write_chunked 30 4 ex_who (mkCfg ex_node ex_admin) [] None false
+    [mkChunk false 0 [ex_it (Some 0) (Some 6) (Some 1)]; mkChunk true 0 [ex_it (Some 0) (Some 6) (Some 2)]]
+  = [RespItems [OData 0 6 1 None] [HWrite 0 6 1 1]; RespStatus STimedRequestMisMatch].
+Proof. vm_compute. reflexivity. Qed.
+
+Example C06_ex_chunked_expiry :
+  write_chunked 30 4 ex_who (mkCfg ex_node ex_admin) [] (Some 150) false
+    [mkChunk true 0 [ex_it (Some 0) (Some 6) (Some 2)]; mkChunk true 400 [ex_it (Some 0) (Some 6) (Some 2)];
+     mkChunk true 400 [ex_it (Some 0) (Some 6) (Some 1)]]
+  = [RespItems [OData 0 6 2 None] [HWrite 0 6 2 1]; RespStatus STimeout].
+Proof. vm_compute. reflexivity. Qed.
